@@ -42,10 +42,11 @@ var x03Base = map[string]string{"ProxyBook": "example", "RedirAddr": "v4", "Priv
 	"BypassUID": "one", "DatabasePath": "set", "KeepAlive": "absent", "CncMode": "absent", "Source": "file",
 	"BindAddr": "example", "Mode": "standalone", "SSRemote": "na"}
 
+// values of the wrong shape (spec: Invalid, outcome "documented-reject")
 var x03Invalid = map[string]map[string]bool{
-	"ProxyBook":  {"len0": true, "len1": true, "len3": true, "unknownnet": true, "emptynet": true, "emptyaddr": true, "noport": true, "badport": true, "notarray": true, "goodbad": true},
-	"PrivateKey": {"absent": true, "empty": true, "short": true, "long": true, "badb64": true},
-	"BypassUID":  {"short": true, "long": true, "badb64": true, "goodshort": true, "notlist": true},
+	"ProxyBook":  {"len0": true, "len1": true, "len3": true, "noport": true, "badport": true, "notarray": true, "goodbad": true},
+	"PrivateKey": {"absent": true, "empty": true, "badb64": true},
+	"BypassUID":  {"badb64": true, "notlist": true},
 	"KeepAlive":  {"str": true},
 	"BindAddr":   {"notlist": true},
 }
@@ -56,6 +57,7 @@ type x03Exp struct {
 	RedirPort  string   `json:"redirPort"`
 	ProxyBook  []string `json:"proxyBook"`
 	Bypass     []string `json:"bypass"`
+	PrivKey    string   `json:"privKey"`
 	AdminUID   string   `json:"adminUID"`
 	KeepAlive  string   `json:"keepAlive"`
 	Panel      string   `json:"panel"`
@@ -449,7 +451,7 @@ func x03FirstInvalid(row *x03Row) string {
 }
 
 func x03FirstDeviation(row *x03Row) string {
-	for _, name := range x03Order {
+	for _, name := range append([]string{"Source"}, x03Order...) {
 		if row.Cfg[name] != x03Base[name] {
 			return name + ":" + row.Cfg[name]
 		}
@@ -473,23 +475,22 @@ func x03Judge(row *x03Row, c *x03Conc, obs *x03Obs, dbPath string, stat func(str
 	}
 	tab("outcome: expected %s, observed err=%q (stage %s)", e.Outcome, obs.Err, obs.Stage)
 	switch e.Outcome {
-	case "error":
+	case "documented-reject":
 		if obs.Err == "" {
 			bad := x03FirstInvalid(row)
 			add("accepted-invalid:"+bad, "a configuration with %s (%s) was accepted without an error", bad, x03Concrete(row, c, strings.Split(bad, ":")[0]))
 		}
 		return
-	case "ok":
+	case "documented-accept":
 		if obs.Err != "" {
-			if row.Cfg["Source"] == "inline" && obs.Stage == "ParseConfig" {
-				add("rejected-valid:Source:inline", "the configuration handed over as content (ck-server -c: \"path to the configuration file or its content\") was rejected: %s", obs.Err)
-			} else {
-				add("rejected-valid:"+x03FirstDeviation(row), "a well-formed, documented configuration was rejected by %s: %s", obs.Stage, obs.Err)
-			}
+			add("rejected-valid:"+x03FirstDeviation(row), "a well-formed, documented configuration (%s) was rejected by %s: %s", x03Concrete(row, c, strings.Split(x03FirstDeviation(row), ":")[0]), obs.Stage, obs.Err)
 			return
 		}
-	default:
+	case x03U:
+		// no expectation beyond "no panic": what the code does is an observation
 		for _, nv := range []string{"RedirAddr=absent", "RedirAddr=empty", "RedirAddr=v6bracket", "RedirAddr=v4badport", "ProxyBook=upnet",
+			"ProxyBook=unknownnet", "ProxyBook=emptynet", "ProxyBook=emptyaddr", "PrivateKey=short", "PrivateKey=long",
+			"BypassUID=short", "BypassUID=long", "BypassUID=goodshort",
 			"AdminUID=short", "AdminUID=long", "AdminUID=badb64", "DatabasePath=baddir", "CncMode=true"} {
 			if f := strings.Split(nv, "="); row.Cfg[f[0]] == f[1] {
 				stat(fmt.Sprintf("undoc:%s->accepted=%v", nv, obs.Err == ""))
@@ -498,14 +499,11 @@ func x03Judge(row *x03Row, c *x03Conc, obs *x03Obs, dbPath string, stat func(str
 		if obs.Err != "" {
 			return
 		}
+	default:
+		panic("unknown outcome class " + e.Outcome)
 	}
 	sta := obs.Sta
-	// deviations that are reported under their own key
-	tag := ""
-	switch {
-	case row.Cfg["AdminUID"] == "short" || row.Cfg["AdminUID"] == "long":
-		tag = ":invalid-admin-uid"
-	}
+	const tag = ""
 	field := func(name, opt, sub string, documented bool, want, got any) {
 		if !documented {
 			tab("%s (%s=%s): undocumented, observed %v", name, opt, row.Cfg[opt], got)
@@ -577,7 +575,11 @@ func x03Judge(row *x03Row, c *x03Conc, obs *x03Obs, dbPath string, stat func(str
 	if p, ok := sta.StaticPv.(*[32]byte); ok && p != nil {
 		gotPv = fmt.Sprintf("%x", p[:])
 	}
-	field("PrivateKey", "PrivateKey", "", true, fmt.Sprintf("%x", c.PrivKey), gotPv)
+	field("PrivateKey", "PrivateKey", "", e.PrivKey != x03U, fmt.Sprintf("%x", c.PrivKey), gotPv)
+	if e.PrivKey == x03U {
+		stat(fmt.Sprintf("undoc:PrivateKey=%s->%d-byte key %s", row.Cfg["PrivateKey"], c.BadKeyLen,
+			map[bool]string{true: "cut to 32 bytes", false: "zero-padded to 32 bytes"}[c.BadKeyLen > 32]))
+	}
 	// AdminUID
 	wantAdmin := ""
 	if e.AdminUID == "admin" {
@@ -585,8 +587,12 @@ func x03Judge(row *x03Row, c *x03Conc, obs *x03Obs, dbPath string, stat func(str
 	}
 	field("AdminUID", "AdminUID", "", e.AdminUID != x03U, wantAdmin, fmt.Sprintf("%x", sta.AdminUID))
 	// BypassUID: the processed set is exactly the configured bypass UIDs (+ the valid AdminUID)
+	bypassDoc := !x03Has(e.Bypass, x03U)
 	var wantSet, gotSet []string
 	for _, tok := range e.Bypass {
+		if tok == x03U {
+			continue
+		}
 		wantSet = append(wantSet, fmt.Sprintf("%x", c.UIDs[tok]))
 	}
 	for k := range sta.BypassUID {
@@ -594,7 +600,11 @@ func x03Judge(row *x03Row, c *x03Conc, obs *x03Obs, dbPath string, stat func(str
 	}
 	sort.Strings(wantSet)
 	sort.Strings(gotSet)
-	field("BypassUID", "BypassUID", tag, true, wantSet, gotSet)
+	field("BypassUID", "BypassUID", tag, bypassDoc, wantSet, gotSet)
+	if !bypassDoc {
+		stat(fmt.Sprintf("undoc:BypassUID=%s->%d unrestricted users from a list with a %d-byte entry", row.Cfg["BypassUID"], len(gotSet),
+			map[bool]int{true: 15, false: c.BadUIDLen}[row.Cfg["BypassUID"] == "goodshort"]))
+	}
 	// KeepAlive: handed to net.Dialer.KeepAlive, for which "disabled" is any negative duration
 	gotKA := time.Duration(0)
 	d, isDialer := sta.ProxyDialer.(*net.Dialer)
@@ -636,21 +646,30 @@ func x03Judge(row *x03Row, c *x03Conc, obs *x03Obs, dbPath string, stat func(str
 	}
 	field("BindAddr", "BindAddr", "", true, wantBind, gotBind)
 	// IsBypass(u) <=> u in the configured set
+	// IsBypass(u) <=> u in the configured set, for UIDs (16 bytes). What IsBypass answers for an argument of another
+	// length is documented nowhere (Cloak itself only asks about 16-byte UIDs): recorded, not judged.
 	for _, q := range x03Queries(row, c) {
 		got := obs.IsBypass[q.Name]
+		if q.Class != "" {
+			kind := q.Name
+			if i := strings.IndexAny(kind, "[+"); i > 0 {
+				kind = "member" + kind[i:]
+			}
+			tab("IsBypass(%s = %x): %d bytes, undocumented, observed %v", q.Name, q.UID, len(q.UID), got)
+			stat(fmt.Sprintf("undoc:IsBypass(%s)->%v", kind, got))
+			continue
+		}
+		if !bypassDoc {
+			tab("IsBypass(%s = %x): the set is undocumented for this row, observed %v", q.Name, q.UID, got)
+			continue
+		}
 		tab("IsBypass(%s = %x): expected %v observed %v", q.Name, q.UID, q.Member, got)
 		if got != q.Member {
-			key := "bypass:membership"
-			if q.Class != "" {
-				key += ":" + q.Class
-			} else if tag != "" && !q.Member {
-				key += tag
-			}
-			add(key, "IsBypass(%x) [%s, %d bytes] = %v; configured unrestricted users: %v", q.UID, q.Name, len(q.UID), got, wantSet)
+			add("bypass:membership", "IsBypass(%x) [%s, %d bytes] = %v; configured unrestricted users: %v", q.UID, q.Name, len(q.UID), got, wantSet)
 		}
 	}
 	// a wrong-length AdminUID, if accepted, must not make anybody an unrestricted user
-	if tag != "" {
+	if bypassDoc && (row.Cfg["AdminUID"] == "short" || row.Cfg["AdminUID"] == "long") {
 		var padded [16]byte
 		copy(padded[:], x03Resize(c.UIDs["admin"], c.BadUIDLen))
 		if !bytes.Equal(padded[:], c.UIDs["admin"]) || !x03Has(e.Bypass, "admin") {
